@@ -25,6 +25,16 @@ fn main() {
             jmv::props::c05::child_main(args.get(1).map(|s| s.as_str()).unwrap_or("not"), depth);
             std::process::exit(0);
         }
+        "c17-serve" => {
+            runner::install_panic_hook();
+            jmv::props::c17::serve();
+            std::process::exit(0);
+        }
+        "c16-child" => {
+            let n: usize = args.get(1).and_then(|s| s.parse().ok()).unwrap_or(4);
+            jmv::props::c16::child_main(n);
+            std::process::exit(0);
+        }
         "replay" => {
             if args.len() < 2 {
                 usage();
@@ -84,6 +94,10 @@ fn main() {
                 i += 1;
             }
             let code = runner::run_property(&p, tier, seed, sub.as_deref());
+            // scratch files of process-spawning checks
+            if let Ok(t) = std::env::var("JMV_TMP") {
+                let _ = std::fs::remove_dir_all(std::path::Path::new(&t).join(format!("c18-{}", std::process::id())));
+            }
             std::process::exit(code);
         }
     }
